@@ -361,6 +361,7 @@ func addPairs(r *ev.Run, scs *[]*mcx.Scenario) {
 		*scs = append(*scs, dupAckScenario(k, 2), dupAckScenario(k, 3))
 	}
 	*scs = append(*scs, pairsScenario(pcfg{Depth: 4}))
+	*scs = append(*scs, muxPeersScenario(ev.Pick(r, 1, 2)))
 	if r.Thorough() {
 		*scs = append(*scs, pairsScenario(pcfg{Depth: 5, Delay: 1}))
 	}
